@@ -118,12 +118,43 @@ type depCell struct {
 
 // depMatrix generates the dependency-matrix cases. nShapes limits the read shapes (quick tier).
 func depMatrix(nShapes int, maxCycle uint64, emit func(Case)) {
+	depMatrixOver(depLocs, nShapes, maxCycle, false, emit)
+	depContainer(maxCycle, emit)
+}
+
+// depAliasLocs: ONE Go object reachable under two names or along two paths - a fact state like any other. A write
+// through one path changes what the other reads.
+var depAliasLocs = []depLoc{
+	{name: "alias-two-names", writers: []string{"F.I", "H.I"}, readers: []string{"F.I", "H.I"}, init: func(w *ref.World) {
+		w.Objs["F"].I = 4
+		w.Objs["H"] = w.Objs["F"]
+	}},
+	{name: "alias-two-paths", writers: []string{"F.P.V", "F.PArr[0].V", `F.MP["a"].V`}, readers: []string{"F.P.V", "F.PArr[0].V", `F.MP["a"].V`}, init: func(w *ref.World) {
+		s := &facts.Sub{V: 4}
+		w.Objs["F"].P = s
+		w.Objs["F"].PArr = []*facts.Sub{s}
+		w.Objs["F"].MP = map[string]*facts.Sub{"a": s}
+	}},
+	{name: "alias-record-of-two-facts", writers: []string{"F.P.V", "G.P.V"}, readers: []string{"F.P.V", "G.P.V"}, init: func(w *ref.World) {
+		s := &facts.Sub{V: 4}
+		w.Objs["F"].P = s
+		w.Objs["G"].P = s
+	}},
+}
+
+// depAliasMatrix: the dependency matrix over the aliased locations (coarse signatures: one per location and
+// same / other path).
+func depAliasMatrix(maxCycle uint64, emit func(Case)) {
+	depMatrixOver(depAliasLocs, 3, maxCycle, true, emit)
+}
+
+func depMatrixOver(locs []depLoc, nShapes int, maxCycle uint64, coarse bool, emit func(Case)) {
 	salRel := []struct {
 		name   string
 		ws, rs int64
 	}{{"w>r", 2, 1}, {"w=r", 1, 1}, {"w<r", 1, 2}}
-	for li := range depLocs {
-		loc := &depLocs[li]
+	for li := range locs {
+		loc := &locs[li]
 		mkWorld := func() *ref.World {
 			w := depBaseWorld()
 			loc.init(w)
@@ -135,7 +166,10 @@ func depMatrix(nShapes int, maxCycle uint64, emit func(Case)) {
 		}
 		var writes []wr
 		for _, wp := range loc.writers {
-			for _, f := range depWriteForms {
+			for fi, f := range depWriteForms {
+				if coarse && fi >= 2 {
+					continue
+				}
 				if loc.isMap && f.name == "div-assign" {
 					continue // float64 into map[string]int64: rejected by the engine as documented
 				}
@@ -163,7 +197,7 @@ func depMatrix(nShapes int, maxCycle uint64, emit func(Case)) {
 			}
 			for _, rp := range loc.readers {
 				for si, sh := range depReadShapes {
-					if si >= nShapes && !(nShapes < len(depReadShapes) && si == 8) {
+					if si >= nShapes && !(nShapes < len(depReadShapes) && si == 8 && !coarse) {
 						continue
 					}
 					if loc.isJSON && sh.noJSON {
@@ -212,16 +246,29 @@ func depMatrix(nShapes int, maxCycle uint64, emit func(Case)) {
 							if wv.form == "ptrswap" {
 								alias = "pointer-swap"
 							}
+							meta := map[string]string{"loc": loc.name, "wp": wv.wp, "rp": rp, "form": wv.form, "shape": sh.name, "dir": dir, "sal": sr.name, "alias": alias}
+							if coarse {
+								meta["form"], meta["shape"] = "any", "any"
+								if wv.wp != rp {
+									meta["alias"] = "other-name-or-path"
+								}
+							}
 							emit(Case{ID: id, Rules: rules, Worlds: []func() *ref.World{mkWorld}, WorldNames: []string{"w"},
-								Opts: hx.RunOpts{MaxCycle: maxCycle},
-								Meta: map[string]string{"loc": loc.name, "wp": wv.wp, "rp": rp, "form": wv.form, "shape": sh.name, "dir": dir, "sal": sr.name, "alias": alias}})
+								Opts: hx.RunOpts{MaxCycle: maxCycle}, Meta: meta})
 						}
 					}
 				}
 			}
 		}
 	}
-	// container-length readers: a write that inserts a map entry / reads Len() of the container
+}
+
+// depContainer: container-length readers: a write that inserts a map entry / reads Len() of the container
+func depContainer(maxCycle uint64, emit func(Case)) {
+	salRel := []struct {
+		name   string
+		ws, rs int64
+	}{{"w>r", 2, 1}, {"w=r", 1, 1}, {"w<r", 1, 2}}
 	for _, sr := range salRel {
 		for _, cs := range []struct{ name, act, cond string }{
 			{"maplen-insert", `F.M["b"] = 2`, "F.M.Len() < 2"},
